@@ -177,20 +177,27 @@ def classify(prop, cases_file, model_file):
             if model.startswith(("nokind", "badcase", "driver-exn")):
                 raise SystemExit("BROKEN: driver cannot interpret case %r: %s" % (case, model))
             has_m, has_s = model != "-", spec != "-"
+            if has_s and ("|W:" in impl or " # " in spec or spec.endswith("?")):
+                # program observations: SPEC speaks about shapes and logical contents only, and only
+                # up to the first step the property leaves open ("?")
+                impl_p, spec_p = project_prog(impl, spec)
+                model_p = project_prog(model, spec)[0] if has_m else None
+            else:
+                impl_p, spec_p, model_p = impl, spec, model
             rec = dict(line=lineno, case=case, impl=impl, model=model, spec=spec, cls=cls)
             if cls == "":
                 res["in_domain"] += 1
                 if oc == "ok":
                     res["nontrivial"] += 1
-            if cls == "" and has_m and has_s and model != spec:
+            if cls == "" and has_m and has_s and model_p != spec_p:
                 raise SystemExit("BROKEN: MODEL and SPEC disagree inside the theorem domain on %r (model=%s spec=%s): the machinery is wrong" % (case, model, spec))
             if has_m and impl == model:
-                if has_s and spec != impl:
+                if has_s and spec_p != impl_p:
                     res["known"].setdefault(cls or "UNCLASSIFIED", []).append(rec)
                 else:
                     res["ok"] += 1
             elif has_m:
-                if has_s and impl == spec:
+                if has_s and impl_p == spec_p:
                     if cls:
                         res["fixed_seen"].setdefault(cls, []).append(rec)
                     else:
@@ -198,13 +205,28 @@ def classify(prop, cases_file, model_file):
                 else:
                     res["violations"].append(rec)
             else:
-                if has_s and impl != spec:
+                if has_s and impl_p != spec_p:
                     res["known"].setdefault(cls or "UNCLASSIFIED", []).append(dict(rec, speconly=True))
                 else:
                     res["ok"] += 1
             if len(res["samples"]) < 6 and lineno % 997 == 1:
                 res["samples"].append(lc)
     return res
+
+
+_STRIP = re.compile(r"\|W:[^\]]*\]")
+
+
+def project_prog(obs, spec):
+    """Keep status + shape + logical contents of each step; cut both at the first '?' step of spec."""
+    so = spec.split(" # ")
+    oo = _STRIP.sub("]", obs).split(" # ")
+    n = len(so)
+    for i, s in enumerate(so):
+        if s == "?":
+            n = i
+            break
+    return " # ".join(oo[:n]), " # ".join(so[:n])
 
 
 def write_replay(prop, tag, recs, note=""):
